@@ -6,7 +6,8 @@ answer after the state left Processing); park: on the `idx != 0` edge a result i
 future pending pushes exactly one Pending slot and takes its index from base + queue.len() read
 before the push; every pop of the queue advances base by one; control-serial: both server factories
 wrap the control service in InFlightService(1) inside BufferService(16). The wrapping index
-arithmetic for all completion permutations is a statement about runtime integers and is not decided."""
+arithmetic for all completion permutations is a statement about runtime integers and is not decided. park (continued): once the parked handler future was taken out of `state.response`, no return is reachable before it is put back, completed (handle_result) or found absent.
+"""
 from facts import *
 from disp import agg_sites
 
